@@ -40,6 +40,12 @@ TcpRpc::Impl::Impl(event::Loop *wp_loop, TerminalInteract *wp_terminal) :
 
 TcpRpc::Impl::~Impl()
 {
+    //! a session was ended (a client's 'exit', a command's endSession()) and the service goes away
+    //! before the next loop pass: the queued disconnect task must not run on a destroyed object
+    for (auto &item : end_session_tasks_)
+        wp_loop_->cancel(item.second);
+    end_session_tasks_.clear();
+
     delete sp_tcp_;
 }
 
@@ -98,9 +104,14 @@ bool TcpRpc::Impl::endSession(const SessionToken &st)
 
     auto ct = iter->second;
 
+    //! one queued disconnect task per session is enough; it is remembered so that ~Impl() can cancel it
+    if (end_session_tasks_.find(st) != end_session_tasks_.end())
+        return true;
+
     //! 委托执行，否则会出自我销毁的异常
-    wp_loop_->runNext(
+    end_session_tasks_[st] = wp_loop_->runNext(
         [this, st, ct] {
+            end_session_tasks_.erase(st);
             client_to_session_.erase(ct);
             session_to_client_.erase(st);
             sp_tcp_->disconnect(ct);
